@@ -488,6 +488,7 @@ where
             let mut seed = None;
             let mut bytes_override = None;
             let mut roundtrip = None;
+            let mut roundtrip_object = None;
             let want = match r {
                 Routine::GlweSk => {
                     let by = m.glwe_encrypt_sk_tmp_bytes(&enc);
@@ -525,6 +526,7 @@ where
                     operand_verify("compressed object (decompress(roundtrip))", d0, &c2);
                     let c = cell_glwe(ct2.data(), b, &sk.clear, &want_pt, (0, 0, 0), None);
                     roundtrip = Some(vec![(c.body, c.mask)]);
+                    roundtrip_object = rt_object(&by, &ser(&c2), &ser(&ct), &ser(&ct2));
                     bytes_override = Some(by);
                     want_pt
                 }
@@ -589,6 +591,7 @@ where
                 cells: vec![c],
                 bytes: bytes_override.unwrap_or_else(|| ser(&ct)),
                 roundtrip,
+                roundtrip_object,
                 bits,
                 key_l1: sk.l1,
                 ..Default::default()
@@ -1138,9 +1141,11 @@ where
                     lib!("decompress(roundtrip)", m.decompress_gglwe(k2.at_mut(i), c2.at(i)));
                     operand_verify("compressed object (decompress(roundtrip))", d0, c2.at(i));
                 }
+                let rt_obj = rt_object(&by, &ser(&c2), &ser(&key), &ser(&k2));
                 Ok(Obj {
                     cells: cells_of(&key, Some(&seeds)),
                     bytes: by,
+                    roundtrip_object: rt_obj,
                     roundtrip: Some(body_mask(&cells_of(&k2, None))),
                     bits,
                     key_l1: sk.l1,
